@@ -334,6 +334,11 @@ func checkC11(ctx *Ctx, c *Case, rounds int) error {
 		}
 	}
 	injectNils(shared)
+	if digest(c.Bytes, "emptycontainers")%4 == 0 {
+		// unpopulated lists / maps / bytes held as empty non-nil containers (what
+		// Mutable or clearing the last entry leaves behind): the same value
+		model.SetEmptyContainers(shared)
+	}
 	c11SharedMsg, c11SharedViews = shared, nil
 	for _, op := range c.Ops {
 		if op.Op == "sharedviews" {
